@@ -215,7 +215,8 @@ func (g *generator) walkNumber(schema *openapi3.Schema) (ast.Type, error) {
 	case FormatDouble:
 		t = ast.NewScalar(ast.KindFloat64)
 	default:
-		t = ast.NewScalar(ast.KindFloat32)
+		// no format: any JSON number is accepted, a float32 would silently lose precision
+		t = ast.NewScalar(ast.KindFloat64)
 	}
 	t.Scalar.Constraints = getConstraints(schema)
 	t.Nullable = schema.Nullable
